@@ -178,10 +178,11 @@ fn run_history(front: Front, reg: regions::Reg, start: u32, steps: &[Step], faul
         let payload = [i as u8, 0xC0, (i * 7) as u8];
         let mut script = Script::default();
         if front == Front::Nb && intr_rng.chance(1, 3) {
-            let k = match intr_rng.below(4) {
+            let k = match intr_rng.below(5) {
                 0 => Intrusion::Send,
                 1 => Intrusion::SendConfirmed,
                 2 => Intrusion::Join,
+                3 => Intrusion::StrayTimeout,
                 _ => Intrusion::StrayRx(intr_rng.bytes_below(24)),
             };
             script.intrude.push((intr_rng.range(1, 6) as u32, k));
